@@ -18,7 +18,8 @@ RULE_TEXT = ("scope predicate of KData::from as a truth table; every accumulator
 EXPLANATION = ("D1 scope = is_tenv and bounds in {EXTERIOR, GROUND}, windows through their wall; D2 terms multiplier*area_net*U and multiplier*area*U; D3 U = [override, computed, 5.7]; "
                "D4 categories (GROUND first, then by tilt) and nine bridge kinds, bridges with l < 0 skipped; D5 totals over exactly the categories, K = au/a guarded, means "
                "guarded, min/max of the same U; D6 K cannot depend on names")
-DECIDED = ["D1 scope", "D2 terms", "D3 precedence chains", "D4 category tables", "D5 totals, guards, min/max", "D6 independence of names"]
+DECIDED = ["D1 scope", "D2 terms", "D3 precedence chains", "D4 category tables", "D5 totals, guards, min/max", "D6 independence of names",
+           "D7 accumulation loops end only on iterator exhaustion (no break/return); U overrides reach the indicator unchanged from overrides.walls / overrides.windows"]
 UNDECIDED = ["invariance under reordering (float summation order; first-match lookups)", "'mean between min and max' as a value statement"]
 ASSUMPTIONS = ["Wall::area_net = gross area - sum of window areas (checked as provenance only)"]
 LEVEL_TEXT = ("Tables and dependence: the envelope scope is evaluated on all 8 combinations, the two decision tables on all 12 + 9 combinations, every accumulator update and "
